@@ -231,7 +231,7 @@ fn hands_space(ctx: &Ctx, rep: &mut Report, n: usize, orders: &[Vec<usize>]) {
                         }
                     }
                     if !found {
-                        monitor::machinery_fail(&format!("C06 fast path mismatch on {:?} not reproduced", arr));
+                        super::unreproduced(&format!("C06 fast path mismatch on {:?} not reproduced", arr));
                     }
                 }
             }
